@@ -756,6 +756,62 @@ func (g *gen) multicast(i int) *Script {
 	return sc
 }
 
+// features: rarely combined client options and session shapes, then a server that goes silent (or
+// closes) once the session runs; not modelled
+func (g *gen) features(i int) *Script {
+	sc := &Script{Name: fmt.Sprintf("feat-%d", i)}
+	rt := pickOf(g, 300, g.rt, 700)
+	sc.Cfg = Cfg{Proto: pickOf(g, 0, 1, 3), BackCh: g.chance(0.5), AnyPort: g.chance(0.3), NoSR: g.chance(0.3),
+		Creds: g.chance(0.2), RTms: rt, UDPms: pickOf(g, 150, 250, 600)}
+	if g.chance(0.3) {
+		sc.Cfg.WTms = pickOf(g, 100, 1000)
+	}
+	if g.chance(0.15) {
+		sc.Cfg.Tunnel = 1
+		sc.Cfg.Proto = pickOf(g, 0, 3)
+	}
+	if sc.Cfg.Creds {
+		sc.ServerAuth = pickOf(g, "basic", "digest")
+	}
+	rec := g.chance(0.25)
+	n := 1 + g.pick(3)
+	codecs := []string{"h264", "pcmu", "opus"}
+	for j := range n {
+		m := MediaSpec{Control: fmt.Sprintf("trackID=%d", j), Codec: codecs[j%3]}
+		if !rec && g.chance(0.45) {
+			m.Back = true
+		}
+		sc.Medias = append(sc.Medias, m)
+	}
+	if rec {
+		sc.Prog = append(sc.Prog, Call{Api: "announce"})
+	} else {
+		sc.Prog = append(sc.Prog, Call{Api: "describe"})
+	}
+	for j := range n {
+		if g.chance(0.8) {
+			sc.Prog = append(sc.Prog, Call{Api: "setup", Media: j})
+		}
+	}
+	run := "play"
+	if rec {
+		run = "record"
+	}
+	sc.Prog = append(sc.Prog, Call{Api: run})
+	sc.Frames = g.chance(0.5)
+	switch g.pick(4) {
+	case 0, 1: // silence
+		sc.Prog = append(sc.Prog, Call{Api: "sleep", Ms: 1300 + rt + sc.Cfg.UDPms + 300, Silent: true})
+	case 2: // the server closes a little later
+		sc.React = append(sc.React, Reaction{M: strings.ToUpper(run), N: 1, Acts: []Action{{Kind: "resp"}, {Kind: "sleep", Ms: 30 + g.pick(200)}, {Kind: pickOf(g, "close", "rst")}}, Abs: "?"})
+		sc.Prog = append(sc.Prog, Call{Api: "sleep", Ms: 400})
+	default: // the session is paused and resumed, then silence
+		sc.Prog = append(sc.Prog, Call{Api: "pause"}, Call{Api: run}, Call{Api: "sleep", Ms: 1300 + rt + sc.Cfg.UDPms + 300, Silent: true})
+	}
+	sc.Prog = append(sc.Prog, Call{Api: "pause"}, Call{Api: "options"})
+	return sc
+}
+
 // concurrent: Close() is called from another goroutine while a call is being served
 func (g *gen) concurrent(i int) *Script {
 	sc := g.baseScript(g.chance(0.3))
